@@ -126,6 +126,22 @@ def run_case(case, ctx):
     if case["left"] and rk != "vec":
         g = torch.Generator().manual_seed(case["rseed"])
         left = torch.randn(*rhs.shape[:-2], rng.choice([1, 2, 3]), n, generator=g, dtype=torch.float64).to(dt)
+    # zero columns / rows among the right-hand sides (per-column convergence masks: a column that has "converged" before the first
+    # iteration must not stop the others), in every batch member or in one member only
+    zsel = (case["rseed"] >> 7) % 8
+    zinfo = set()
+    if zsel == 0 and rhs.dim() >= 2 and rhs.shape[-1] >= 2:
+        rhs = rhs.clone()
+        rhs[..., 0] = 0
+        zinfo = {"zero_column"}
+    elif zsel == 1 and rhs.dim() >= 3 and rhs.shape[-1] >= 2 and rhs.shape[0] >= 2:
+        rhs = rhs.clone()
+        rhs[0, ..., -1] = 0
+        zinfo = {"zero_column_one_member"}
+    elif zsel == 2 and left is not None and left.shape[-2] >= 2:
+        left = left.clone()
+        left[..., 0, :] = 0
+        zinfo = {"zero_left_row"}
     cfg = dict(case["cfg"])
     if tri:
         cfg = {}
@@ -146,7 +162,7 @@ def run_case(case, ctx):
         ctx.stat("harvested_factor:" + type(F.root).__name__)
     entry = case["entry"] if left is None else "method"
     tags = common.spec_tags(spec)
-    info = common.spec_info(spec) | {"rhs:" + rk, "cfg:" + settings_key(cfg), "entry:" + entry} | ({"left"} if left is not None else set())
+    info = common.spec_info(spec) | {"rhs:" + rk, "cfg:" + settings_key(cfg), "entry:" + entry} | ({"left"} if left is not None else set()) | zinfo
     if wrap:
         tags = set(tags) | {"harvested:" + wrap}
     path = zoo.class_path(spec, 2)
